@@ -132,7 +132,8 @@ def _c17_tags(toks, impl):
 
 
 def _c13_tags(toks, impl):
-    return ["ktype=" + toks[1], "req=" + toks[2], "container=" + toks[3].split(".")[0]] + (["answer=panic"] if impl == "panic" else [])
+    cont = "bulk-constructor" if toks[2] in ("kmersb", "kmersa") else toks[3].split(".")[0]
+    return ["ktype=" + toks[1], "req=" + toks[2], "container=" + cont] + (["answer=panic"] if impl == "panic" else [])
 
 
 def _c12_tags(toks, impl):
@@ -178,6 +179,8 @@ def _reads_shrink(idx):
 
 
 def _c01_tags(toks, impl):
+    if toks[1] == "longpath":
+        return ["req=longpath", "K=" + toks[2], "stranded=" + toks[5], "entry=" + toks[6]]
     t = ["entry=" + toks[2], "K=" + toks[3], "stranded=" + toks[4], "join=" + toks[5], "reduce=" + toks[6]]
     nk = 0 if toks[7] == "-" else toks[7].count(",") + 1
     t.append("kmers=%s" % ("0" if nk == 0 else "1-9" if nk < 10 else "10-49" if nk < 50 else "50+"))
@@ -192,7 +195,9 @@ def _c01_tags(toks, impl):
 
 
 def _c01_nontrivial(toks, impl):
-    # at least two nodes, one of them with at least two k-mers
+    # at least two nodes, one of them with at least two k-mers; or a long path with the generator's guarantee met
+    if toks[1] == "longpath":
+        return impl.startswith("distinct=1")
     if "|" not in impl:
         return False
     nodes = impl.split("|")[1]
@@ -204,6 +209,8 @@ def _c01_nontrivial(toks, impl):
 
 def _table_shrink(toks):
     out = []
+    if toks[1] == "longpath":
+        return out
     ents = toks[7].split(",")
     if len(ents) > 1:
         for i in range(len(ents)):
@@ -211,11 +218,15 @@ def _table_shrink(toks):
     return out
 
 
-_C01_RULE = ("requests `compress <entry> K stranded join reduce <table>`: k-mer tables produced by the real filter_kmers from the structured "
+_C01_RULE = ("one request in 500 (thorough: 300) is `longpath K seed len stranded entry`: a repeat-free random read of 131 200-150 000 bases (K in "
+             "{24,31,48}; the harness checks that all canonical k-mers are distinct and none is its own reverse complement) through the real filter "
+             "and the entry point - too large for the line protocol and the executable model, so the answer is judged against the property "
+             "directly: one unbranched path = one node holding every k-mer (implementation against the statement, not against the model). The others: "
+             "requests `compress <entry> K stranded join reduce <table>`: k-mer tables produced by the real filter_kmers from the structured "
              "read-set generator (alphabet 1-4, chunk reuse, s++rc(s), hairpins, tandem repeats, homopolymers, tight cycles, rc/duplicate/SNP/tip "
              "copies) with thresholds 1-3, pruned with remove_censored_exts when the threshold rejects k-mers (otherwise half of the time); 5% with "
              "one extension bit flipped (non-reciprocal: panic branch compared with the model only), 5% with one k-mer dropped unpruned "
-             "(dangling extensions); entry points from-hash / from-slice / no-exts; K in {4,5,6,8,12,16,31,32} with 60% K<=8 (thorough: all 17 "
+             "(dangling extensions); entry points from-hash / from-slice / no-exts; K in {4,5,6,8,12,16,31,32,40,48,64} with 60% K<=8 (thorough: all 17 "
              "types); stranded 1/3; join always|payload-equality (colour = label set); reduce saturating-sum|max|non-commutative mix. The "
              "hash map's index order is read back from the implementation and handed to the model. Non-trivial = at least two nodes, one "
              "with >= 2 k-mers.")
@@ -493,7 +504,7 @@ PROPS = {
         "rule": "requests `filter K stranded report_all summarizer memory bytes_per_unit size_of_pair probes reads`: read sets from the structured "
                 "generator (alphabet 1-4; uniform, chunk-pasted with reuse, s++rc(s), hairpins, tandem repeats, homopolymers, tight cycles, "
                 "reads < K, rc/duplicate/SNP/tip copies; random boundary extensions on a quarter of the reads; labels 0..2), K in "
-                "{4,5,6,8,12,16,31,32} (thorough: all 17 types with K>=4), CountFilter(n) / CountFilterSet(n) for n in {0,1,2,3,4,70000}, "
+                "{4,5,6,8,12,16,31,32,40,48,64} (thorough: all 17 types with K>=4), CountFilter(n) / CountFilterSet(n) for n in {0,1,2,3,4,70000}, "
                 "both strandedness and report_all values; the bytes-per-unit hook is set so that the pass count sweeps 1, 2, 2-8, 8-64, "
                 "64-256 and 256; one request in 150 is a single read with a run of 65600-70000 equal bases, up to two other bases before it and up to three after it, under thresholds 1, 2, 65535, 65536, 70000 (count saturation; the run's first and last observations carry flanks no other does). The answer carries the number of passes really "
                 "made (hook counter), the table sorted by key, all_kmers verbatim and lookups of present/absent k-mers. Non-trivial = at "
